@@ -522,6 +522,16 @@ def main():
             else:
                 chk.cov['model_mismatches'] += 1
         chk.sample({'case': r['case'], 'paths': r['paths'], 'loads_ok': r['ok'], 'loads_failed_as_expected': r['okfail']})
+    # an alternative that has to wait for a reference is not overtaken by a later alternative: the result
+    # does not depend on the round in which the reference is tried (scenario shared with C11)
+    from . import c11
+    for uses_first in (False, True):
+        for registered in (False, True):
+            pr = c11.unresolved_navigation('', uses_first, registered)
+            paths += 1
+            if pr:
+                chk.violation('RREL with two alternatives, the first one waiting for a reference: %s' % pr,
+                              {'waiting_alternative': [uses_first, registered]})
     for xi in range(len(X_CASES)):
         for pr in cross_file_scenario(xi)[:2]:
             chk.violation(pr, {'cross_file': xi})
@@ -539,6 +549,10 @@ def main():
 
 
 def replay(data):
+    if 'waiting_alternative' in data:
+        from . import c11
+        pr = c11.unresolved_navigation('', *data['waiting_alternative'])
+        return bool(pr), pr
     if 'cross_file' in data:
         pr = cross_file_scenario(data['cross_file'])
         return bool(pr), pr[:2]
